@@ -323,6 +323,8 @@ impl Response {
     }
 
     pub fn generate_response(mut response: Response, request: Request) -> Vec<u8> {
+        #[cfg(rws_verif)]
+        crate::verif_hooks::point("response.generate_response.enter");
 
         if response.content_range_list.len() == 1 {
             let content_range_index = 0;
@@ -370,6 +372,8 @@ impl Response {
         }
 
         let body = Response::generate_body(response.content_range_list);
+        #[cfg(rws_verif)]
+        crate::verif_hooks::point("response.generate_response.after_body");
 
         let mut headers_str = SYMBOL.new_line_carriage_return.to_string();
         for header in response.headers {
